@@ -27,7 +27,7 @@ theorem cylinderFaces_eq (N : Nat) :
     cylinderFaces N true = (List.range N).flatMap (fun i => [cylFace N (.capB i), cylFace N (.capT i)]) ++
       (List.range N).flatMap (fun i => [cylFace N (.s1 i), cylFace N (.s2 i)]) ∧
     cylinderFaces N false = (List.range N).flatMap (fun i => [cylFace N (.s1 i), cylFace N (.s2 i)]) := by
-  constructor <;> simp [cylinderFaces, cylFace]
+  constructor <;> (rw [cylinderFaces_norm]; simp [cylinderFacesCanon, cylFace])
 
 /-- consistent orientation: a directed edge lies in at most one face (caps included) -/
 theorem cylinder_oriented (N : Nat) (hN : 3 ≤ N) (f g : CF) (hf : f.idx < N) (hg : g.idx < N) (e : Nat × Nat)
